@@ -5,6 +5,7 @@ Fail closed: any problem raises ExtractionError; callers exit 2 (broken run), ne
 """
 import fcntl
 import hashlib
+import re
 import json
 import os
 import shutil
@@ -92,7 +93,11 @@ def ensure_facts(config='dev', verbose=True):
     key = tree_key(root)
     out = os.path.join(CACHE, 'facts', config, key)
     done = os.path.join(out, 'DONE.json')
-    lockf = open(os.path.join(CACHE, 'extract.lock'), 'w')
+    # KV_EXTRACT_SLOT=<k>: an own cargo target directory and lock per slot, so that several checkers (the shards of bin/selftest-all) can compile different
+    # trees at the same time; without it all extractions of this /verif are serialised on one target directory
+    slot = os.environ.get('KV_EXTRACT_SLOT', '')
+    slot = ('-' + re.sub(r'[^A-Za-z0-9]', '', slot)) if slot else ''
+    lockf = open(os.path.join(CACHE, 'extract%s.lock' % slot), 'w')
     fcntl.flock(lockf, fcntl.LOCK_EX)
     try:
         if not os.path.isfile(done):
@@ -100,7 +105,7 @@ def ensure_facts(config='dev', verbose=True):
             if os.path.isdir(out):
                 shutil.rmtree(out)
             os.makedirs(out)
-            tgt = os.path.join(CACHE, 'target-' + ('dev' if config == 'dev' else config))
+            tgt = os.path.join(CACHE, 'target-' + ('dev' if config == 'dev' else config) + slot)
             os.makedirs(tgt, exist_ok=True)
             # cargo skips the wrapper when its fingerprint says the member is fresh: force a rebuild of members
             for prof in os.listdir(tgt):
@@ -165,7 +170,7 @@ def ensure_facts(config='dev', verbose=True):
             ents.sort()
             scratch = [x for x in ents if not x[2]]
             repo = [x for x in ents if x[2]]
-            for _, e, _r in scratch[:-8] + repo[:-6]:
+            for _, e, _r in scratch[:-16] + repo[:-6]:
                 shutil.rmtree(os.path.join(base, e), ignore_errors=True)
         with open(done) as fh:
             info = json.load(fh)
